@@ -733,7 +733,7 @@ def model(*names):
     for n in names:
       def wrap(ip, *a, _fn=fn, _n=n, **k):
         used(_n)
-        return _fn(ip, *a, **k)
+        return inherit_shape(_fn(ip, *a, **k), a)
       TABLE[n] = Builtin(n, wrap)
     return fn
   return deco
